@@ -77,14 +77,16 @@ def add_op(t, op, sinks):
   raise ValueError(kind)
 
 
-def build(prog, *, name='', num_threads=0, data_source=None):
-  """-> (TreeTransform, sinks)."""
+def build(prog, *, name='', num_threads=0, data_source=None, branch=False):
+  """-> (TreeTransform, sinks). branch: every intermediate transform is continued twice (the first continuation is dropped)."""
   from ml_metrics._src.chainables import transform  # pylint: disable=g-import-not-at-top
   t = transform.TreeTransform.new(name=name, num_threads=num_threads)
   if data_source is not None:
     t = t.data_source(data_source)
   sinks = []
   for op in prog['ops']:
+    if branch:
+      add_op(t, op, [])
     t = add_op(t, op, sinks)
   return t, sinks
 
